@@ -105,6 +105,32 @@ def main(argv):
             ktie["translator_difftest"] = (r.stdout.strip().split("\n") or [""])[-1][:120] if r.returncode == 0 else "FAILED: " + (r.stderr or r.stdout)[-300:]
         except Exception as e:      # a supporting run: its failure is reported, it decides nothing
             ktie["translator_difftest"] = "not run: " + str(e)[:120]
+    # which property rests on which kernel (the theorems of that property are about the hand-written model of that kernel)
+    KERNEL_OF = {"srtp_key_limit_update": ["C09"], "srtp_key_limit_set": ["C09"],
+                 "srtp_index_guess": ["C06"], "srtp_estimate_index": ["C06", "C16"], "srtp_rdbx_estimate_index": ["C06"], "srtp_index_advance": ["C06"],
+                 "srtp_rdbx_get_roc": ["C06", "C16"], "srtp_rdbx_get_packet_index": ["C06"],
+                 "srtp_rdb_increment": ["C08", "C07"], "srtp_rdb_check": ["C07"], "srtp_rdb_add_index": ["C07"],
+                 "srtp_rdbx_check": ["C05", "C08"], "srtp_rdbx_add_index": ["C05", "C08"], "srtp_rdbx_set_roc_seq": ["C16"],
+                 "v128_left_shift": ["C18", "C07"], "bitvector_left_shift": ["C18", "C05"], "bitvector_set_to_zero": ["C18", "C05"]}
+    if (kfail or not kproofs or tier == "thorough") and kdir:
+        # the tie no longer checks (or thorough tier): search for a concrete in-range input on which the code's kernel (as translated
+        # now) and the model differ; such an input is a replay for every property whose theorems rest on that kernel
+        try:
+            sres, smsg = vlib.kernel_search(cdir, qdir, kdir)
+        except Exception as e:
+            sres, smsg = [], "kernel search failed: " + str(e)[:120]
+        ktie["search"] = {"functions_searched": sum(1 for r in sres if r["fail"] >= 0), "with_failing_input": [r["name"] for r in sres if r["fail"] > 0],
+                          "message": smsg}
+        for r in sres:
+            if r["fail"] > 0 and pid in KERNEL_OF.get(r["name"], []):
+                rp = write_replay(pid, len(violations) + 1, "kernel",
+                                  f"# property {pid}: the C function {r['name']} (as translated now by tools/gen_kernels.py) and its model differ on an input inside\n"
+                                  f"# the hypotheses of {r['name']}_gen_eq ({r['fail']} of {r['inhyp']} grid points); the theorems of {pid} are about the model.\n"
+                                  f"# first failing input (order of the generated function's parameters; arrays as word lists):\n"
+                                  f"input = {r['input']}\ncode  = {r['gen']}\nmodel = {r['model']}\n"
+                                  f"# result format: Some (scalar results, output words, [in-range flag; absN; frame samples]) / None = out of fuel\n"
+                                  f"# replay: bash tools/kernel_search.sh /repo <cbuild> <compiled coq dir> out.txt\n")
+                violations.append((f"VIOLATION property={pid} replay={rp} kernel {r['name']} differs from its model on an in-range input", rp))
     ev["coverage"]["kernel_tie"] = ktie
     if kfail or not kproofs:
         notes.append("generated-kernel tie does not check (" + (kfail or "KernelGenProofs.v / KernelGenProofs2.v do not compile against the regenerated KernelGen.v")[:160] +
